@@ -70,6 +70,8 @@ fn op_strategy(f: Focus, nscripts: u16, nslots: u8) -> BoxedStrategy<Op> {
         cw => (0..nslots.max(1)).prop_map(|slot| Op::Cancel { slot }),
         1 => (0..nslots.max(1)).prop_map(|slot| Op::AutoDrop { slot }),
         1 => (0..nslots.max(1)).prop_map(|slot| Op::CloneCancel { slot }),
+        // a key the driver obtained, cancelled from inside a handler
+        (cw / 2).max(1) => (0u8..4).prop_map(|slot| Op::CancelDriver { slot }),
         2 => Just(Op::ReadTime),
         2 => (0..nscripts).prop_map(|script| Op::Send { out: 0, script }),
     ]
